@@ -259,7 +259,7 @@ class SymH:
 def _twin_perturb(b):
     """Reachability twin: make the reference deliberately wrong (first element + 1)."""
     if isinstance(b, _np.ndarray):
-        b = _np.array(b, dtype=object, copy=True)
+        b = _np.array(b, dtype=object, copy=True, order='C')     # C order: reshape(-1) below must be a view
         flat = b.reshape(-1)
         for i in range(flat.size):
             if not isinstance(flat[i], symnp._NaN):
